@@ -98,7 +98,7 @@ GHOST static void sem_final(void) {
   vs_label_add("sem_blocked_waits", sem_blocked_waits);
   vs_label_add("sem_try_ok", sem_try_ok);
   vs_label_add("sem_try_fail", sem_try_fail);
-  if (n && sem_blocked_waits > 0) vs_label_add("nontrivial", 1);
+  if (n && sem_blocked_waits > 0) rt_nontrivial("sem");
   vs_rt_exit();
 }
 const harness_t h_sem = {"sem", sem_setup, sem_do_op, 0, sem_final, 0};
@@ -199,7 +199,7 @@ GHOST static void rw_final(void) {
   vs_label_add("rw_try_ok", rw_try_ok);
   vs_label_add("rw_try_fail", rw_try_fail);
   vs_label_max("rw_shared_max", rw_shared_max);
-  if (n && rw_blocked > 0) vs_label_add("nontrivial", 1);
+  if (n && rw_blocked > 0) rt_nontrivial("rwlock");
   vs_rt_exit();
 }
 const harness_t h_rwlock = {"rwlock", rw_setup, rw_do_op, 0, rw_final, 0};
@@ -267,7 +267,7 @@ GHOST static void bar_final(void) {
       }
   vs_label_add("barrier_rounds", rounds);
   vs_label_add("barrier_blocked", bar_blocked);
-  if (n && rounds >= 2 && bar_blocked > 0) vs_label_add("nontrivial", 1);
+  if (n && rounds >= 2 && bar_blocked > 0) rt_nontrivial("barrier");
   vs_rt_exit();
 }
 const harness_t h_barrier = {"barrier", bar_setup, bar_do_op, 0, bar_final, 0};
@@ -352,7 +352,7 @@ GHOST static void sp_final(void) {
   vs_label_add("spin_try_ok", sp_try_ok);
   vs_label_add("spin_try_fail", sp_try_fail);
   vs_label_add("spin_contended", sp_contended);
-  if (n && (sp_contended > 0 || sp_try_fail > 0)) vs_label_add("nontrivial", 1);
+  if (n && (sp_contended > 0 || sp_try_fail > 0)) rt_nontrivial("spin");
   vs_rt_exit();
 }
 const harness_t h_spin = {"spin", sp_setup, sp_do_op, 0, sp_final, 0};
